@@ -1,13 +1,15 @@
 #!/bin/sh
-# usage: try_seed.sh <patch.diff> <Cnn> [tier]  -- apply a seeded change to /repo, run the check, undo
-P="$1"; ID="$2"; TIER="${3:-quick}"
-cd /repo || exit 9
+# usage: try_seed.sh <patch.diff> <Cnn> [tier] [extra vcheck args] -- apply a seeded change in a scratch worktree of /repo (never in
+# /repo itself), run the check against it via VERIF_REPO, remove the worktree
+P="$1"; ID="$2"; TIER="${3:-quick}"; shift; shift; [ $# -gt 0 ] && shift
+W=$(mktemp -d /tmp/ts.XXXXXX); rmdir "$W"
+git -C /repo worktree add -q --detach "$W" HEAD || exit 9
+cd "$W"
 if ! git apply --check "$P" 2>/dev/null; then
-  if ! git apply --3way "$P" >/dev/null 2>&1; then echo "PATCH-DOES-NOT-APPLY $P"; git checkout HEAD -- . ; exit 8; fi
+  if ! git apply --3way "$P" >/dev/null 2>&1; then echo "PATCH-DOES-NOT-APPLY $P"; cd /; git -C /repo worktree remove --force "$W"; exit 8; fi
   git reset -q
 else
   git apply "$P"
 fi
-cd /verif && ./vcheck "$ID" --tier "$TIER" 2>&1 | grep -E "^\[C|VIOLATION|KNOWN|UNDECIDED|STALE|CHECKER" | cut -c1-260
-echo "exit=$?"
-cd /repo && git checkout HEAD -- . && git status --short | head -3
+cd /verif && VERIF_REPO="$W" ./vcheck "$ID" --tier "$TIER" "$@" 2>&1 | grep -E "^\[C|^\[X|VIOLATION|KNOWN|UNDECIDED|STALE|CHECKER" | cut -c1-260
+cd /; git -C /repo worktree remove --force "$W"
